@@ -17,6 +17,18 @@ def fileBlockForOrd (f : OpenedFile) (ord : Nat) : Option BlockAddr :=
     let store := openStore (body.drop fstLen)
     store.get (store.locateOrd ord)
 
+/-- mirrors: SSTableIndex::get_block_with_key on an opened version-3 file — `locate_with_key` asks
+the FST for the first separator `≥ key` (tantivy-fst is external: its answer is the parameter
+`geFirst`), `get_block` reads the address from the store; without index the one pseudo-block -/
+def fileBlockForKey (geFirst : Key → Option Nat) (f : OpenedFile) (k : Key) : Option BlockAddr :=
+  let body := f.index.take (f.index.length - 8)
+  let fstLen := u64le (f.index.drop (f.index.length - 8))
+  if fstLen = 0 then some ⟨0, 0, f.data.length⟩
+  else
+    match geFirst k with
+    | none => none
+    | some id => (openStore (body.drop fstLen)).get id
+
 /-- mirrors: Dictionary::ord_to_term over an opened file. `skip` drops the value block in front of
 the keys (identity for `VoidSSTable`). Outer `none`: the block is zstd-compressed (not modelled);
 inner `none`: `Ok(false)`, the ordinal is past the last term. -/
